@@ -164,6 +164,16 @@ check("C14", "read-only stores and disabled APIs change nothing", "exploration",
       "DESIGN.md §3 C14",
       [R("^TestC14$", 1600, 50000)])
 
+check("C05", "GC never removes retained or recent content", "exploration",
+      "rapid state machine building object graphs with aliasing/nesting/referrers + ageing + collections at any step under every policy; oracle = must-keep closure computed on the model from the statement, pull walk of every tag",
+      "Randomised model-based search over object graphs (shared and aliased digests, nested indexes, foreign-typed children, referrers of referrers, dangling/blob-only/circular subjects), "
+      "push/delete histories, ageing, and collections per repository, store-wide and through restart under all 16 policy combinations x grace {off, 1 h} x {mem, dir}; before each collection "
+      "the must-keep set is computed from the statement alone (settings never add to it), after it every member must be served byte-identically, every tag must resolve and pull completely.",
+      "Trusted: the closure in c05_test.go (two documented weakenings from Appendix B of DESIGN.md; root status of child manifests is not asserted while finding C05/orphaned-child is open - counted "
+      "in evidence); ageing through the add-only hook VerifAgeBlobs (Chtimes / in-memory metadata).",
+      "DESIGN.md §3 C05",
+      [R("^TestC05$", 4000, 120000, steps=35)])
+
 NOT_APPLICABLE = {}
 
 # --------------------------------------------------------------------------- helpers
